@@ -11,6 +11,10 @@ def project(log, sc, tid):
         k = e["ev"]
         t = e["t"]
         if k == "run_begin":
+            if sc.get("runs_kw"):
+                runkw = sc["runs_kw"][e["run"]]
+                payload = runkw.get("ping_payload", "")
+                payload = list(payload.encode() if isinstance(payload, str) else payload)
             ev.append({"ev": "run_begin", "t": t, "run": e["run"], "interval": e["interval"], "timeout": e["timeout"],
                        "timeoutGiven": runkw.get("ping_timeout") is not None, "reconnect": e["reconnect"], "cbs": e["cbs"],
                        "dispatcher": e["dispatcher"], "payload": payload, "jitter": int(sc.get("send_delay_ms") or 0),
